@@ -131,6 +131,9 @@ func c04RunBuy(env world.Env, g c04Group, b c04Buy) (vs []mc.Viol, class string)
 		refStr, referred = w.A("R").Bech, true
 	case "name-other":
 		refStr, referred = "refer.jkl", true
+	case "fresh": // a valid address the chain has never seen: no account record, no balance
+		fa := sdk.AccAddress([]byte("referrer-never-seen-")).String()
+		refStr, referred, refAddr = fa, true, fa
 	case "name-self":
 		refStr = "payer.jkl"
 	case "unregistered":
@@ -401,7 +404,7 @@ func c04Enum(thorough bool) mc.Enum {
 	ratios := [][2]int64{{40, 25}, {0, 0}, {35, 25}, {60, 40}, {10, 90}, {30, 25}}
 	bytesSet := []int64{gbBytes / 2, gbBytes, 3 * gbBytes, 5_000 * gbBytes, 20_000 * gbBytes}
 	daysSet := []int64{1, 29, 30, 365, 366, 400}
-	refs := []string{"none", "self", "other", "name-other", "name-self", "unregistered", "garbage", "self-caps"}
+	refs := []string{"none", "self", "other", "name-other", "name-self", "unregistered", "garbage", "self-caps", "fresh"}
 	if thorough {
 		feeds = append(feeds, "0", "-1", "abc", "1000000")
 		ratios = append(ratios, [2]int64{100, 0}, [2]int64{0, 100}, [2]int64{5, 5})
